@@ -503,6 +503,14 @@ cgsitrf(superlu_options_t *options, SuperMatrix *A, int relax, int panel_size,
 			if (error) { *info = error; return; }
 			lsub = Glu->lsub;
 		    }
+		    /* ... also for the value of the fill-in entry (?column_bmod reserved
+		       nothing for a column whose structure was empty) */
+		    if (xlusup[jj] + 1 > Glu->nzlumax) {
+			int_t nzlumax = Glu->nzlumax;
+			int error = cLUMemXpand(jj, xlusup[jj], LUSUP, &nzlumax, Glu);
+			if (error) { *info = error; return; }
+			lsub = Glu->lsub;
+		    }
 		    xlsub[jj + 1]++;
 		    assert(xlusup[jj]==xlusup[jj+1]);
 		    xlusup[jj + 1]++;
